@@ -56,24 +56,54 @@ theorem lookup_gen (l : List (Name × List ALine)) (names : List Name) (bN : Nam
         simp [this] at hk
       · exact ih h
 
+/-- The device `d0` (top-level mode), read by a compare, is the configuration `a0`: same interfaces and
+bindings, same route lines, the same access lists with the same lines — whatever the entry numbers. -/
+structure Reads (d0 : Dev) (a0 : Config) : Prop where
+  mode : d0.mode = none
+  intfs : d0.intfs = (ofConfig a0).intfs
+  routes : d0.routes = a0.routes.map (·.text)
+  names : aclNames d0 = a0.acls.map (·.1)
+  lines : ∀ n, (entriesOf d0 n).map (·.2) = a0.lines n
+
+theorem reads_ofConfig (a0 : Config) : Reads (ofConfig a0) a0 :=
+  ⟨rfl, rfl, rfl, aclNames_ofConfig a0, entriesOf_ofConfig a0⟩
+
+theorem Reads.slot {d0 : Dev} {a0 : Config} (h : Reads d0 a0) (x dir : String) :
+    slotOf d0 x dir = slotOf (ofConfig a0) x dir := by simp only [slotOf, h.intfs]
+
+theorem Reads.hasI {d0 : Dev} {a0 : Config} (h : Reads d0 a0) (x : String) :
+    hasIntf d0 x = hasIntf (ofConfig a0) x := by simp only [hasIntf, h.intfs]
+
+theorem Reads.hasA {d0 : Dev} {a0 : Config} (h : Reads d0 a0) (n : Name) : hasAcl d0 n = a0.hasAcl n := by
+  have h1 : hasAcl d0 n = (aclNames d0).contains n := by
+    simp only [hasAcl, aclNames, List.contains_eq_any_beq, List.any_map]
+    congr 1
+    funext p
+    simp only [Function.comp, BEq.comm]
+  rw [h1, h.names]
+  simp only [Config.hasAcl, List.contains_eq_any_beq, List.any_map]
+  congr 1
+  funext p
+  simp only [Function.comp, BEq.comm]
+
 /-- The state `diffConfig` starts from. -/
 theorem sem_init (a0 b : Config) (sc : Scripts) (hnd : (a0.acls.map (·.1)).Nodup)
-    (st2 : St) (a' : Config) (hacls : a'.acls = a0.acls) (hcore : CoreEmpty st2) :
-    Sem ⟨a', b, sc⟩ st2.aNeeded (ofConfig a0) (generateNames a' b st2) (ofConfig a0) (fun _ _ => .orig) [] := by
+    (st2 : St) (a' : Config) (hacls : a'.acls = a0.acls) (hcore : CoreEmpty st2) (d0 : Dev) (hr : Reads d0 a0) :
+    Sem ⟨a', b, sc⟩ st2.aNeeded d0 (generateNames a' b st2) d0 (fun _ _ => .orig) [] := by
   obtain ⟨c1, c2, c3, c4, c5, c6⟩ := hcore
   have hhas : ∀ n, a'.hasAcl n = a0.hasAcl n := fun n => by simp [Config.hasAcl, hacls]
   constructor
-  · show actsRun (ofConfig a0) st2.acts = _
+  · show actsRun d0 st2.acts = _
     rw [c6]; rfl
   · intro n _ hn; exact ⟨hn, rfl⟩
-  · rfl
-  · rw [aclNames_ofConfig]; exact hnd
+  · exact hr.mode
+  · rw [hr.names]; exact hnd
   · rfl
   · rfl
   · intro n hn
-    rw [hasAcl_ofConfig, ← hhas]; exact hn
+    rw [hr.hasA, ← hhas]; exact hn
   · intro n _ _
-    rw [entriesOf_ofConfig]
+    rw [hr.lines]
     simp [Config.lines, hacls]
   · intro bN hbN
     have : (generateNames a' b st2).aReady = st2.aReady := rfl
@@ -83,7 +113,7 @@ theorem sem_init (a0 b : Config) (sc : Scripts) (hnd : (a0.acls.map (·.1)).Nodu
       simp only [St.nameOf, generateNames]
       rw [lookup_gen b.acls _ bN hb]; rfl
     refine ⟨hname, ?_⟩
-    rw [hname, hasAcl_ofConfig, ← hhas]
+    rw [hname, hr.hasA, ← hhas]
     exact genName_not_hasAcl a' bN
   · intro x dir _; rfl
   · intro p hp
@@ -464,14 +494,14 @@ theorem rRun_nodup (acts : List MA) {R R' : List String} (h : rRun R acts = some
 
 /-- What the run of the engine on a pair of the class `WF` looks like: the device `d1` after the
 interface phase with its invariant, the final device `d3`, the removed ACLs `p`. -/
-structure Core (a0 b : Config) (sc : Scripts) (d1 : Dev) (σ1 : String → String → Status) (π1 : List (Nat × Nat))
+structure Core (a0 b : Config) (sc : Scripts) (d0 d1 : Dev) (σ1 : String → String → Status) (π1 : List (Nat × Nat))
     (d3 : Dev) (p : List Name) : Prop where
-  sem : Sem (envOf a0 b sc) (st2Of a0 b).aNeeded (ofConfig a0) (st3Of a0 b sc) d1 σ1 π1
+  sem : Sem (envOf a0 b sc) (st2Of a0 b).aNeeded d0 (st3Of a0 b sc) d1 σ1 π1
   done : ∀ bi ∈ b.intfs, ∃ ai ∈ (aOf a0 b).intfs, ai.name = bi.name ∧ Done σ1 bi.name ai.binds bi.binds
   orig : ∀ y, y ∉ b.intfs.map (·.name) → ∀ dir, σ1 y dir = .orig
   pmem : ∀ n ∈ p, a0.hasAcl n = true ∧ n ∉ (st3Of a0 b sc).aNeeded
   pdef : p = (duPending (envOf a0 b sc) (diffRoutes (st3Of a0 b sc) (sortRoutes (aOf a0 b).routes) (sortRoutes b.routes))).1
-  exec : (exec (ofConfig a0) (engine a0 b sc).script).map strip = some (strip d3)
+  exec : (exec d0 (engine a0 b sc).script).map strip = some (strip d3)
   intfs3 : d3.intfs = d1.intfs
   routes3 : ∀ t, t ∈ d3.routes ↔ (t ∈ a0.routes.map (·.text) ∧ ¬ DelT (aOf a0 b).routes b.routes t) ∨
     InsT (aOf a0 b).routes b.routes t
@@ -484,8 +514,9 @@ structure Core (a0 b : Config) (sc : Scripts) (d1 : Dev) (σ1 : String → Strin
   subI : ∀ i ∈ (aOf a0 b).intfs, i ∈ a0.intfs
   cov : ∀ bi ∈ b.intfs, ∃ ai ∈ (aOf a0 b).intfs, ai.name = bi.name
 
-theorem F2_core (a0 b : Config) (sc : Scripts) (hw : WF a0 b sc) (hok : (engine a0 b sc).ok = true) :
-    ∃ d1 σ1 π1 d3 p, Core a0 b sc d1 σ1 π1 d3 p := by
+theorem F2_core (a0 b : Config) (sc : Scripts) (hw : WF a0 b sc) (hok : (engine a0 b sc).ok = true)
+    (d0 : Dev) (hr : Reads d0 a0) :
+    ∃ d1 σ1 π1 d3 p, Core a0 b sc d0 d1 σ1 π1 d3 p := by
   obtain ⟨hchk, hacts, hscript⟩ := engine_unfold a0 b sc hok
   -- names for the intermediate states
   obtain ⟨a', ha'⟩ : ∃ a', a' = (alignVRFs a0 b {}).2 := ⟨_, rfl⟩
@@ -505,9 +536,8 @@ theorem F2_core (a0 b : Config) (sc : Scripts) (hw : WF a0 b sc) (hok : (engine 
   have hea : e.a = a' := by rw [he]
   have heb : e.b = b := by rw [he]
   have hesc : e.sc = sc := by rw [he]
-  obtain ⟨d0, hd0⟩ : ∃ d0, d0 = ofConfig a0 := ⟨_, rfl⟩
-  have hsem0 := sem_init a0 b sc hw.aAcls st2 a' haacls hcheck.core
-  rw [← he, ← hd0] at hsem0
+  have hsem0 := sem_init a0 b sc hw.aAcls st2 a' haacls hcheck.core d0 hr
+  rw [← he] at hsem0
   rw [← he] at hacts
   -- static facts
   have hsubI : ∀ i ∈ a'.intfs, i ∈ a0.intfs := fun i hi => by rw [hpI] at hi; exact (List.mem_filter.mp hi).1
@@ -527,9 +557,9 @@ theorem F2_core (a0 b : Config) (sc : Scripts) (hw : WF a0 b sc) (hok : (engine 
     have hai0 := hsubI ai hai
     obtain ⟨h1, h2⟩ := hw.aBinds ai hai0
     refine ⟨h1, fun bd hbd => (h2 bd hbd).1, fun bd hbd => by rw [hea, hhas]; exact (h2 bd hbd).2, ?_, ?_⟩
-    · rw [hd0]; exact hasIntf_ofConfig a0 hai0
+    · rw [hr.hasI]; exact hasIntf_ofConfig a0 hai0
     · intro bd hbd
-      rw [hd0, slotOf_ofConfig a0 hw.aIntfs hai0 bd.dir (h2 bd hbd).1]
+      rw [hr.slot, slotOf_ofConfig a0 hw.aIntfs hai0 bd.dir (h2 bd hbd).1]
       exact lastBind_of_mem h1 hbd
   have hwfi : WFI e d0 := by
     refine ⟨by rw [hea]; exact haNames', by rw [heb]; exact hw.bIntfs, by rw [hea]; exact hbindsA, ?_⟩
@@ -547,7 +577,7 @@ theorem F2_core (a0 b : Config) (sc : Scripts) (hw : WF a0 b sc) (hok : (engine 
   -- phase 2: routes
   obtain ⟨plan, hplan⟩ : ∃ plan, plan = (routePlan (sortRoutes a'.routes) (sortRoutes b.routes)).1 := ⟨_, rfl⟩
   obtain ⟨R, hR⟩ : ∃ R, R = a0.routes.map (·.text) := ⟨_, rfl⟩
-  have hd1routes : d1.routes = R := by rw [hsem1.routes, hd0, hR]; rfl
+  have hd1routes : d1.routes = R := by rw [hsem1.routes, hr.routes, hR]
   have hrwf : RoutesWF (sortRoutes a'.routes) (sortRoutes b.routes) R := by
     have hpa := perm_sortRoutes a'.routes
     have hpb := perm_sortRoutes b.routes
@@ -617,7 +647,7 @@ theorem F2_core (a0 b : Config) (sc : Scripts) (hw : WF a0 b sc) (hok : (engine 
     apply List.Nodup.sublist (List.filter_sublist.trans List.filter_sublist)
     rw [hea, haacls]; exact hw.aAcls
   have hd1names : (d1.intfs.map (·.name)).Nodup := by
-    rw [hsem1.intfs, hd0, intfNames_ofConfig]; exact hw.aIntfs
+    rw [hsem1.intfs, hr.intfs, intfNames_ofConfig]; exact hw.aIntfs
   -- no slot of the device refers to an ACL that is removed
   have hnoslot : ∀ n ∈ p, ∀ x dir, isDir dir = true → slotOf d1 x dir ≠ some n := by
     intro n hn x dir hdir hslot
@@ -645,7 +675,7 @@ theorem F2_core (a0 b : Config) (sc : Scripts) (hw : WF a0 b sc) (hok : (engine 
         · exact hc
         · exfalso
           have : slotOf d0 x dir = none := by
-            rw [hd0]
+            rw [hr.slot]
             simp only [slotOf, ofConfig]
             have : (a0.intfs.map fun i => (⟨i.name, i.vrf, lastBind i.binds "in", lastBind i.binds "out"⟩ : DIntf)).find?
                 (fun i => i.name == x) = none := by
@@ -656,7 +686,7 @@ theorem F2_core (a0 b : Config) (sc : Scripts) (hw : WF a0 b sc) (hok : (engine 
             rw [this]
           rw [this] at hslot; cases hslot
       obtain ⟨i0, hi0, rfl⟩ := List.mem_map.mp hx
-      rw [hd0, slotOf_ofConfig a0 hw.aIntfs hi0 dir hdir] at hslot
+      rw [hr.slot, slotOf_ofConfig a0 hw.aIntfs hi0 dir hdir] at hslot
       obtain ⟨bd, hbd, hbdir, hbacl⟩ := lastBind_some hslot
       have hmarked : Marked a0 st2 i0 → False := by
         intro hm
@@ -724,8 +754,8 @@ theorem F2_core (a0 b : Config) (sc : Scripts) (hw : WF a0 b sc) (hok : (engine 
     intro x dir
     simp only [slotOf, hd3i, hd2]
     rfl
-  have hexec : (exec (ofConfig a0) (engine a0 b sc).script).map strip = some (strip d3) := by
-    rw [hscript, exec_script _ _ (by rfl), ← hd0]
+  have hexec : (exec d0 (engine a0 b sc).script).map strip = some (strip d3) := by
+    rw [hscript, exec_script _ _ hr.mode]
     have := hfinal
     rw [actsRun] at this
     rw [this]; rfl
@@ -749,21 +779,22 @@ theorem F2_core (a0 b : Config) (sc : Scripts) (hw : WF a0 b sc) (hok : (engine 
     obtain ⟨k1, k2⟩ := hd3keep x hx
     exact ⟨by rw [k1, hd2]; rfl, by rw [k2, hd2]; rfl⟩
   have hgone3 : ∀ x ∈ p, hasAcl d3 x = false := hd3gone
-  subst hst3 hst4 he hst2 hst1 ha' hd0
+  subst hst3 hst4 he hst2 hst1 ha'
   exact ⟨d1, σ1, π1, d3, p, ⟨hsem1, hdone, horig, hpmem, hp, hexec, (by rw [hd3i, hd2]; rfl), hroutes3, hrnd, hkeep3, hgone3, hmarked,
     hcheck.core, haacls, hsubI, hcov⟩⟩
 
 /-- The conclusions of the end-to-end theorem, for the final device of a run (`Core`). -/
-theorem core_e2e {a0 b : Config} {sc : Scripts} (hw : WF a0 b sc) {d1 : Dev} {σ1 : String → String → Status}
-    {π1 : List (Nat × Nat)} {d3 : Dev} {p : List Name} (hc : Core a0 b sc d1 σ1 π1 d3 p) :
+theorem core_e2e {a0 b : Config} {sc : Scripts} (hw : WF a0 b sc) {d0 d1 : Dev} (hr : Reads d0 a0)
+    {σ1 : String → String → Status}
+    {π1 : List (Nat × Nat)} {d3 : Dev} {p : List Name} (hc : Core a0 b sc d0 d1 σ1 π1 d3 p) :
       (∀ bi ∈ b.intfs, ∀ bd ∈ bi.binds, ∃ n, slotOf (strip d3) bi.name bd.dir = some n ∧ hasAcl (strip d3) n = true ∧
           AclEqv (linesOf (strip d3) n) (b.lines bd.acl)) ∧
       (∀ bi ∈ b.intfs, ∀ dir, isDir dir = true → dir ∉ bi.binds.map (·.dir) → slotOf (strip d3) bi.name dir = none) ∧
       (∀ t, t ∈ (strip d3).routes ↔ (t ∈ a0.routes.map (·.text) ∧ ¬ DelT (alignVRFs a0 b {}).2.routes b.routes t) ∨
           InsT (alignVRFs a0 b {}).2.routes b.routes t) ∧
-      (∀ x, x ∉ b.intfs.map (·.name) → ∀ dir, isDir dir = true → slotOf (strip d3) x dir = slotOf (ofConfig a0) x dir) ∧
+      (∀ x, x ∉ b.intfs.map (·.name) → ∀ dir, isDir dir = true → slotOf (strip d3) x dir = slotOf d0 x dir) ∧
       (∀ i ∈ a0.intfs, i.name ∉ b.intfs.map (·.name) → ∀ bd ∈ i.binds,
-          hasAcl (strip d3) bd.acl = true ∧ entriesOf (strip d3) bd.acl = entriesOf (ofConfig a0) bd.acl) := by
+          hasAcl (strip d3) bd.acl = true ∧ entriesOf (strip d3) bd.acl = entriesOf d0 bd.acl) := by
   have hsem1 := hc.sem
   have hhas : ∀ n, (aOf a0 b).hasAcl n = a0.hasAcl n := fun n => by simp [Config.hasAcl, hc.aclsEq]
   have hslot3 : ∀ x dir, slotOf d3 x dir = slotOf d1 x dir := by
@@ -805,7 +836,7 @@ theorem core_e2e {a0 b : Config} {sc : Scripts} (hw : WF a0 b sc) {d1 : Dev} {σ
     · have := hdn.orig dir hda hnb
       rw [this] at hs
       simp only [SlotOK] at hs
-      rw [hs, ← hain, slotOf_ofConfig a0 hw.aIntfs (hc.subI ai hai) dir hdir]
+      rw [hs, ← hain, hr.slot, slotOf_ofConfig a0 hw.aIntfs (hc.subI ai hai) dir hdir]
       exact lastBind_none hda
   · intro x hx dir hdir
     rw [slotOf_strip, hslot3]
@@ -836,8 +867,23 @@ theorem F2_end_to_end (a0 b : Config) (sc : Scripts) (hw : WF a0 b sc) (hok : (e
       (∀ x, x ∉ b.intfs.map (·.name) → ∀ dir, isDir dir = true → slotOf d' x dir = slotOf (ofConfig a0) x dir) ∧
       (∀ i ∈ a0.intfs, i.name ∉ b.intfs.map (·.name) → ∀ bd ∈ i.binds,
           hasAcl d' bd.acl = true ∧ entriesOf d' bd.acl = entriesOf (ofConfig a0) bd.acl) := by
-  obtain ⟨d1, σ1, π1, d3, p, hc⟩ := F2_core a0 b sc hw hok
-  exact ⟨strip d3, hc.exec, core_e2e hw hc⟩
+  obtain ⟨d1, σ1, π1, d3, p, hc⟩ := F2_core a0 b sc hw hok (ofConfig a0) (reads_ofConfig a0)
+  exact ⟨strip d3, hc.exec, core_e2e hw (reads_ofConfig a0) hc⟩
+
+/-- END TO END from any device that reads as `a0` (whatever the entry numbers of its access lists). -/
+theorem F2_end_to_end_from (a0 b : Config) (sc : Scripts) (hw : WF a0 b sc) (hok : (engine a0 b sc).ok = true)
+    (d0 : Dev) (hr : Reads d0 a0) :
+    ∃ d', (exec d0 (engine a0 b sc).script).map strip = some d' ∧
+      (∀ bi ∈ b.intfs, ∀ bd ∈ bi.binds, ∃ n, slotOf d' bi.name bd.dir = some n ∧ hasAcl d' n = true ∧
+          AclEqv (linesOf d' n) (b.lines bd.acl)) ∧
+      (∀ bi ∈ b.intfs, ∀ dir, isDir dir = true → dir ∉ bi.binds.map (·.dir) → slotOf d' bi.name dir = none) ∧
+      (∀ t, t ∈ d'.routes ↔ (t ∈ a0.routes.map (·.text) ∧ ¬ DelT (alignVRFs a0 b {}).2.routes b.routes t) ∨
+          InsT (alignVRFs a0 b {}).2.routes b.routes t) ∧
+      (∀ x, x ∉ b.intfs.map (·.name) → ∀ dir, isDir dir = true → slotOf d' x dir = slotOf d0 x dir) ∧
+      (∀ i ∈ a0.intfs, i.name ∉ b.intfs.map (·.name) → ∀ bd ∈ i.binds,
+          hasAcl d' bd.acl = true ∧ entriesOf d' bd.acl = entriesOf d0 bd.acl) := by
+  obtain ⟨d1, σ1, π1, d3, p, hc⟩ := F2_core a0 b sc hw hok d0 hr
+  exact ⟨strip d3, hc.exec, core_e2e hw hr hc⟩
 
 theorem WF_of_wfB {a0 b : Config} {sc : Scripts} (h : wfB a0 b sc = true) : WF a0 b sc := by
   simp only [wfB, Bool.and_eq_true, decide_eq_true_eq, List.all_eq_true, Bool.or_eq_true, bne_iff_ne, ne_eq,
